@@ -76,7 +76,14 @@ pub enum CReq {
 pub enum Case {
     Sequential(Seq),
     /// a sequential prefix, then two clients issue their requests concurrently from two threads
-    Concurrent { pre: Vec<CReq>, a: Vec<CReq>, b: Vec<CReq> },
+    Concurrent {
+        pre: Vec<CReq>,
+        a: Vec<CReq>,
+        b: Vec<CReq>,
+        /// both clients finish with a shutdown request of their own (concurrently): exactly one of them is handed the store
+        #[serde(default)]
+        both_shutdown: bool,
+    },
     /// a sequential prefix, then one client issues the whole batch without waiting for any reply (the requests are
     /// enqueued in issue order); every reply must be what sequential execution in issue order gives
     Pipelined { pre: Vec<CReq>, batch: Vec<CReq> },
@@ -170,7 +177,7 @@ impl Prop for C14 {
                 2 => Just(CReq::GetState),
             ]
         };
-        let conc = (vec(creq(), 0..=3), vec(creq(), 1..=5), vec(creq(), 1..=5)).prop_map(|(pre, a, b)| Case::Concurrent { pre, a, b });
+        let conc = (vec(creq(), 0..=3), vec(creq(), 1..=5), vec(creq(), 1..=5), prop::bool::weighted(0.3)).prop_map(|(pre, a, b, both_shutdown)| Case::Concurrent { pre, a, b, both_shutdown });
         let pipe = (vec(creq(), 0..=3), vec(creq(), 2..=12)).prop_map(|(pre, batch)| Case::Pipelined { pre, batch });
         let aband = (vec(creq(), 0..=3), vec((creq(), prop::bool::weighted(0.4)), 2..=14)).prop_map(|(pre, reqs)| Case::Abandoned { pre, reqs });
         prop_oneof![12 => seq, 4 => conc, 2 => pipe, 1 => aband].boxed()
@@ -186,13 +193,18 @@ impl Prop for C14 {
                 }
                 run(ctx, c, &mut o)
             }
-            Case::Concurrent { pre, a, b } => concurrent(ctx, pre, a, b, &mut o),
+            Case::Concurrent { pre, a, b, both_shutdown } => concurrent(ctx, pre, a, b, *both_shutdown, &mut o),
             Case::Pipelined { pre, batch } => pipelined(ctx, pre, batch, &mut o),
             Case::Abandoned { pre, reqs } => abandoned(ctx, pre, reqs, &mut o),
         };
         verif::set_clock(None);
         if let Err(e) = r {
-            o.fail("C14/harness-error", e);
+            if e.starts_with("harness-timeout") {
+                o.failure = None;
+                o.fail("C14/harness-timeout", e);
+            } else {
+                o.fail("C14/harness-error", e);
+            }
         }
         o
     }
@@ -776,7 +788,7 @@ fn linearizable(start: &Mini, ops: &[Rec], done: &mut Vec<bool>, model: &Mini, f
     false
 }
 
-fn concurrent(ctx: &mut Ctx, pre: &[CReq], a: &[CReq], b: &[CReq], o: &mut Outcome) -> R<()> {
+fn concurrent(ctx: &mut Ctx, pre: &[CReq], a: &[CReq], b: &[CReq], both_shutdown: bool, o: &mut Outcome) -> R<()> {
     use std::sync::atomic::{AtomicU64, Ordering};
     use std::sync::Arc;
     o.class("concurrent");
@@ -801,7 +813,9 @@ fn concurrent(ctx: &mut Ctx, pre: &[CReq], a: &[CReq], b: &[CReq], o: &mut Outco
         return Ok(());
     }
     let clock = Arc::new(AtomicU64::new(1));
+    let barrier = Arc::new(std::sync::Barrier::new(2));
     let run_client = |reqs: Vec<CReq>, h: SyncHandle, clock: Arc<AtomicU64>| {
+        let barrier = barrier.clone();
         std::thread::spawn(move || {
             let rt = tokio::runtime::Builder::new_current_thread().enable_all().build().expect("rt");
             rt.block_on(async move {
@@ -812,14 +826,18 @@ fn concurrent(ctx: &mut Ctx, pre: &[CReq], a: &[CReq], b: &[CReq], o: &mut Outco
                     let response = clock.fetch_add(1, Ordering::SeqCst);
                     recs.push(Rec { req: r, reply, invoke, response });
                 }
-                recs
+                // optionally every client ends with a shutdown request of its own - once both are through with their
+                // requests, so that no request meets a stopped actor
+                barrier.wait();
+                let store = if both_shutdown { Some(tokio::time::timeout(std::time::Duration::from_secs(20), h.shutdown()).await) } else { None };
+                (recs, store)
             })
         })
     };
     let ta = run_client(a.to_vec(), h.clone(), clock.clone());
     let tb = run_client(b.to_vec(), h.clone(), clock.clone());
-    let ra = ta.join().map_err(|_| "client A panicked".to_string())?;
-    let rb = tb.join().map_err(|_| "client B panicked".to_string())?;
+    let (ra, sa) = ta.join().map_err(|_| "client A panicked".to_string())?;
+    let (rb, sb) = tb.join().map_err(|_| "client B panicked".to_string())?;
     let overlapped = ra.iter().any(|x| rb.iter().any(|y| x.invoke < y.response && y.invoke < x.response));
     let acked_write = ra.iter().chain(rb.iter()).any(|r| matches!(r.req, CReq::InsertLocal(..) | CReq::InsertRemote(..) | CReq::DeletePrefix(..)) && !matches!(r.reply, Reply::Err));
     if overlapped {
@@ -829,10 +847,30 @@ fn concurrent(ctx: &mut Ctx, pre: &[CReq], a: &[CReq], b: &[CReq], o: &mut Outco
         o.nontrivial = true;
     }
     // final contents from the store handed back by shutdown
-    let final_entries = ctx.rt.block_on(async {
-        let mut store = es(h.shutdown().await)?;
-        dump(&mut store, ns)
-    })?;
+    let final_entries = if both_shutdown {
+        o.class("concurrent/both-clients-shut-down");
+        let mut stores = vec![];
+        for s in [sa, sb].into_iter().flatten() {
+            match s {
+                Err(_) => return Err("harness-timeout: a shutdown request was not answered within 20 s".into()),
+                Ok(Ok(st)) => stores.push(st),
+                Ok(Err(_)) => {}
+            }
+        }
+        if stores.len() != 1 {
+            o.fail(
+                "C14/shutdown-store",
+                format!("two clients asked for shutdown concurrently: {} of them were handed the store (exactly one must be, with every acknowledged write in it)", stores.len()),
+            );
+            return Ok(());
+        }
+        dump(&mut stores[0], ns)?
+    } else {
+        ctx.rt.block_on(async {
+            let mut store = es(h.shutdown().await)?;
+            dump(&mut store, ns)
+        })?
+    };
     let mut ops = ra.clone();
     ops.extend(rb.iter().cloned());
     let mut done = vec![false; ops.len()];
